@@ -156,25 +156,6 @@ theorem final_literal_membership_eq_ref (op : SOp) (V v : Version) (hV : V.wf = 
 
 /-! ## two clauses: the comma -/
 
-/-- the one-member constraints of the ordered comparisons and `==` -/
-def memberOf : SOp → Version → Option RC
-  | .eq, V => some (.ver V)
-  | .lt, V => some (.rng ⟨none, some V, false, false⟩)
-  | .le, V => some (.rng ⟨none, some V, false, true⟩)
-  | .gt, V => some (.rng ⟨some V, none, false, false⟩)
-  | .ge, V => some (.rng ⟨some V, none, true, false⟩)
-  | _, _ => none
-
-theorem memberOf_spec (op : SOp) (V : Version) (m : RC) (h : memberOf op V = some m) :
-    clauseVC op V = .ok (.single m) ∧ (∀ e ∈ m.bounds, e = V) ∧ (V.wf = true → m.WF) := by
-  cases op <;> simp [memberOf] at h <;> subst h <;>
-    refine ⟨rfl, by intro e he; simp [RC.bounds, RC.view, VRange.bounds, RC.min, RC.max] at he; simp [he], ?_⟩
-  · intro h; exact h
-  all_goals
-    intro h
-    refine ⟨by intro e he; simp [VRange.bounds] at he; subst he; exact h, ?_⟩
-    intro m M hm hM; simp at hm hM
-
 /-- **a two-clause specifier set** of ordered comparisons / `==` (what `parse_constraint` does with the
 comma is `intersect`): defined, and membership equals the reference conjunction on probes regular for both
 literals. -/
